@@ -126,28 +126,19 @@ func genReserveFacts() {
 			fail("EstimateTraderFee: no parameter of type account.Version")
 		} else {
 			ev := &reserveEval{files: orderFiles, own: order, ext: map[string]*constEnv{"account": acct}}
+			wit := []string{"poolscript.TaprootMultiSigWitnessSize", "poolscript.MultiSigWitnessSize"}
 			for v := int64(0); v < 256 && !curFailed; v++ {
-				var added []string
+				// the witness constants mentioned by the statements that are EXECUTED for this version, in
+				// EstimateTraderFee and in the same-package helpers it calls (however the weight is assembled)
 				ev.why = ""
-				vars := map[string]int64{vparam: v}
-				locals := map[string]ast.Expr{}
-				ok := ev.run(etf.Body.List, vars, locals, func(st ast.Stmt) bool {
-					if as, isAs := st.(*ast.AssignStmt); isAs && len(as.Rhs) == 1 && as.Tok == token.ADD_ASSIGN {
-						rhs := exprString(ev.resolve(as.Rhs[0], vars, locals, 0))
-						if strings.Contains(rhs, "poolscript.TaprootMultiSigWitnessSize") {
-							added = append(added, "tap")
-						} else if strings.Contains(rhs, "poolscript.MultiSigWitnessSize") {
-							added = append(added, "legacy")
-						}
-					}
-					return false
-				})
+				seen := map[string]bool{}
+				ok := ev.mentions(etf, map[string]int64{vparam: v}, wit, seen, 0)
 				switch {
 				case !ok:
 					fail("EstimateTraderFee: cannot evaluate the body for account version %d (%s)", v, ev.why)
-				case len(added) != 1:
-					fail("EstimateTraderFee: account version %d adds witness sizes %v (want exactly one)", v, added)
-				case added[0] == "tap":
+				case len(seen) != 1:
+					fail("EstimateTraderFee: account version %d uses %d witness size constants (want exactly one)", v, len(seen))
+				case seen[wit[0]]:
 					tap = append(tap, fmt.Sprint(v))
 				}
 			}
@@ -499,6 +490,63 @@ func (e *reserveEval) resolve(x ast.Expr, vars map[string]int64, locals map[stri
 	return x
 }
 
+// mentions executes fd for the given input and records which of the selectors `sels` occur in the statements that
+// are executed – in fd itself and, recursively, in the same-package functions called from those statements (their
+// integer-evaluable arguments bound to the callee's parameters).
+func (e *reserveEval) mentions(fd *ast.FuncDecl, vars map[string]int64, sels []string, out map[string]bool, depth int) bool {
+	if fd == nil || fd.Body == nil {
+		return true
+	}
+	locals := map[string]ast.Expr{}
+	good := true
+	ok := e.run(fd.Body.List, vars, locals, func(st ast.Stmt) bool {
+		ast.Inspect(st, func(n ast.Node) bool {
+			switch x := n.(type) {
+			case *ast.FuncLit:
+				return false
+			case *ast.SelectorExpr:
+				str := exprString(x)
+				for _, s := range sels {
+					if s == str {
+						out[s] = true
+					}
+				}
+			case *ast.CallExpr:
+				id, isID := x.Fun.(*ast.Ident)
+				if !isID || depth >= 3 {
+					return true
+				}
+				callee := findFunc(e.files, id.Name)
+				if callee == nil || callee == fd {
+					return true
+				}
+				var names []string
+				for _, f := range callee.Type.Params.List {
+					for _, nm := range f.Names {
+						names = append(names, nm.Name)
+					}
+				}
+				cv := map[string]int64{}
+				if len(names) == len(x.Args) {
+					for i, a := range x.Args {
+						why := e.why
+						if v, ok := e.intVal(a, vars, locals); ok {
+							cv[names[i]] = v
+						}
+						e.why = why
+					}
+				}
+				if !e.mentions(callee, cv, sels, out, depth+1) {
+					good = false
+				}
+			}
+			return true
+		})
+		return false
+	})
+	return ok && good
+}
+
 // callBool evaluates a function with integer parameters (receiver first if withRecv) returning one bool.
 func (e *reserveEval) callBool(fd *ast.FuncDecl, args []int64, withRecv bool) (bool, bool) {
 	var names []string
@@ -575,6 +623,9 @@ func (e *reserveEval) run(stmts []ast.Stmt, vars map[string]int64, locals map[st
 							}
 						}
 					}
+				}
+				if visit(st) {
+					stopped = true
 				}
 			case *ast.IfStmt:
 				if t.Init != nil && !exec([]ast.Stmt{t.Init}) {
